@@ -3,6 +3,8 @@ import os
 from vlib.unit import Builder, Target, VERIF, scan_assumes
 from vlib.runner import Proof
 from vlib.opaque_profile import opaque_profile
+from vlib import ctx
+from vlib.configure import REPO
 
 QT = os.path.join(VERIF, 'qtmodel')
 HERE = os.path.dirname(os.path.abspath(__file__))
@@ -14,8 +16,8 @@ def rd(name):
 
 def profile():
     return opaque_profile(
-        types={'QXmppMessage': 'QXmppMessage'},
-        class_types={'QXmppMessage'},
+        types={'QXmppMessage': 'QXmppMessage', 'QXmppCarbonManagerV2': 'QXmppCarbonManagerV2', 'QXmppCarbonManager': 'QXmppCarbonManager'},
+        class_types={'QXmppMessage', 'QXmppCarbonManagerV2', 'QXmppCarbonManager'},
         calls={
             'ctor:QXmppMessage()': ('fn', 'QXmppMessage_ctor'),
             'QXmppMessage::parse/1': ('fn', 'QXmppMessage_parse'),
@@ -25,6 +27,10 @@ def profile():
             '*::injectMessage/1': ('expr', 'ev_injectMessage({1})'),
             '*::messageSent/1': ('expr', 'ev_messageSent({1})'),
             '*::messageReceived/1': ('expr', 'ev_messageReceived({1})'),
+            # namespace-aware descendant lookup (a seeded change used it instead of firstChildElement): ANY matching descendant
+            'qdom::elementsByTagNameNS/2': ('fn', 'qdom_elementsByTagNameNS'),
+            'qnodelist::at/1': ('fn', 'qnodelist_at'), 'qnodelist::item/1': ('fn', 'qnodelist_at'),
+            'qdom::toElement/0': ('arg', 0),
         },
         pure_fns={'client', 'configuration', 'jidBare'},
     )
@@ -38,11 +44,15 @@ def build(work, tier):
     for cname, src, cls, specf in (('CarbonV2_handleStanza', 'src/client/QXmppCarbonManagerV2.cpp', 'QXmppCarbonManagerV2', 'v2.spec'),
                                    ('CarbonV1_handleStanza', 'src/client/QXmppCarbonManager.cpp', 'QXmppCarbonManager', 'v1.spec')):
         sp = b.spec(specf)
-        txt = b.lower(Target(src, cls + '::handleStanza', 'handleStanza', cname, this='void', parent=None), sp)
-        units.append((cname, sp, txt))
+        txt = b.lower(Target(src, cls + '::handleStanza', 'handleStanza', cname, this=cls, parent=None), sp)
+        # the manager's own data members, mirrored from the class definition on every run (a member added by a change -- a cached
+        # copy of the own JID, say -- is then part of the state the contract quantifies over, with an arbitrary value)
+        rec, _ = ctx.emit_record(os.path.join(REPO, src), cls, cls, cls, prof, opaque_ok=True)
+        rec = rec.replace('{\n', '{\n  char _no_modelled_member;\n', 1)
+        units.append((cname, sp, rec + '\n' + txt))
     ctxt = b.context()
     for cname, sp, txt in units:
-        c = '#include "opaque.h"\n' + prof.literal_ids.table() + ctxt + '\n' + b.subst(rd('model.h')) + txt + '\nvoid h_%s(void) { qdom element; %s(0, element%s); }\n' % (cname, cname, ', 0' if 'V2' in cname else '')
+        c = '#include "opaque.h"\n' + prof.literal_ids.table() + ctxt + '\n' + b.subst(rd('model.h')) + '\n'.join(getattr(b, 'lifted', [])) + '\n' + txt + '\nvoid h_%s(void) { qdom element; %s *self = malloc(sizeof(*self)); __CPROVER_assume(self != 0); %s(self, element%s); }\n' % (cname, cname.replace('CarbonV2_handleStanza', 'QXmppCarbonManagerV2').replace('CarbonV1_handleStanza', 'QXmppCarbonManager'), cname, ', 0' if 'V2' in cname else '')
         f = b.write(cname + '.c', c)
         p = Proof(cname, f, 'h_' + cname, enforce=cname, kind='complete', include_dirs=[QT], timeout=300, loop_contracts=False,
                   note='loop-free function, every DOM element and every sender string (opaque)')
